@@ -738,7 +738,7 @@ func init() {
 	register(&property{
 		Meta: propertyMeta{
 			ID:          "C06",
-			Explanation: "(C06-STAGES) path-sensitive stage automaton over every CFG path of QuickMatch: stages S1 direct match, S2 match(GET) under method == HEAD, S3 stableRoutes[method+\"/*\"] under HandleFallbackRoute, S4 findAllowedMethods under HandleMethodNotAllowed run in that order, each stage's result is tested, a success returns that stage's own values and no later stage runs, each later stage is reachable only through the failure of all earlier ones and only under its option flag. (C06-PATH) every matcher call receives formatPath(request path), or formatPath(interceptAll) when InterceptAll is set. (C06-ALLOW) the allowed set is computed by the dispatch matcher on the same path over a range of anyMethods, skipping exactly the request's method, recording a method iff it matched. (C06-DISPATCH) the dispatcher maps route / non-empty allowed set / nothing to the route, not-allowed (set stored first) and not-found chains on every path; default handlers: http.NotFound; sorted Allow header, 200 iff OPTIONS else 405.",
+			Explanation: "(C06-STAGES) path-sensitive stage automaton over every CFG path of QuickMatch: stages S1 direct match, S2 match(GET) under method == HEAD, S3 stableRoutes[method+\"/*\"] under HandleFallbackRoute, S4 findAllowedMethods under HandleMethodNotAllowed run in that order, each stage's result is tested, a success returns that stage's own values and no later stage runs, each later stage is reachable only through the failure of all earlier ones and only under its option flag. (C06-PATH) every matcher call receives formatPath(request path), or formatPath(interceptAll) when InterceptAll is set. (C06-ALLOW) the allowed set is computed by the dispatch matcher on the same path over a range of anyMethods, skipping exactly the request's method, recording a method iff it matched. (C06-DISPATCH) the dispatcher maps route / non-empty allowed set / nothing to the route, not-allowed (set stored first) and not-found chains on every path; default handlers: http.NotFound; sorted Allow header, 200 iff OPTIONS else 405. A stage that a path skips (and no earlier stage made moot) must have its own option decided off on that path.",
 			NotDecided:  []string{"which routes match (C01)", "exact bytes of the Allow header"},
 			Assumptions: []string{"option flags are fixed after registration (C13-GATE)"},
 		},
